@@ -316,10 +316,18 @@ def run(ctx):
             # ---- corruptions ------------------------------------------------------------
             cs = corruptions(rng, w, atoms, fluents, goal)
             cs.append(("other-domain-name", "header", atoms, fluents, goal))
+            # an object that only an *earlier* problem (parsed against the same Domain object) declared
+            used = sorted({x for a in atoms for x in a[1:] if x in w.objects} | {x for k in fluents for x in k[1:] if x in w.objects})
+            dropped = rng.choice(used) if used else None
             if not thorough:
                 cs = rng.sample(cs, min(len(cs), 8))
+            if dropped is not None:
+                cs.append(("object-declared-only-in-an-earlier-problem", "objects", atoms, fluents, ["and"]))
             for kind, target, a2, f2, g2 in cs:
-                ast2 = problem_text(w, name, w.name if kind != "other-domain-name" else "elsewhere", items, a2, f2, g2, rng)
+                items2 = items
+                if kind == "object-declared-only-in-an-earlier-problem":
+                    items2 = gen.W.typed_items([(o, t) for o, t in pairs if o != dropped], "single")
+                ast2 = problem_text(w, name, w.name if kind != "other-domain-name" else "elsewhere", items2, a2, f2, g2, rng)
                 t2 = sx.plain(ast2)
                 try:
                     lib.parse_problem_text(t2, dom)
